@@ -76,7 +76,8 @@ def make_cases(rng, tier):
         fired = res["tree"][0] == "ok" and count_un(res["tree"][1]) < n_ops(p)
         cases.append({"json": {"program": jsonable(p), "impl": jsonable(res)}, "coq": ip.ccase(p, res),
                       "spec": ip.cspeccase(p, res), "nontrivial": fired or n_ops(p) >= 2, "key": ip.cprog(p),
-                      "raised": res["tree"][0] == "err", "exec_raised": (res["rows"] or ("ok",))[0] == "err"})
+                      "raised": res["tree"][0] == "err", "exec_raised": (res["rows"] or ("ok",))[0] == "err",
+                      "repeat_differs": bool(res.get("repeat_differs"))})
     return cases
 
 
@@ -88,6 +89,8 @@ def run(ctx):
     # an accepted tree must execute: an exception at execute() is a failure of this property too
     for c in [c for c in cases if c["exec_raised"]][:3]:
         found |= ctx.failing_case({"kind": "execute-raised", "case": c["json"]}, None)
+    for c in sorted([c for c in cases if c["repeat_differs"]], key=lambda c: len(json.dumps(c["json"])))[:2]:
+        found |= ctx.failing_case({"kind": "second-execution-of-the-same-relation-gave-other-rows", "case": c["json"]}, None)
     summ = core.judge(ctx, cases, FULL_HDR, "check_iter", SPEC_HDR, "check_spec", model_v="Model/CheckIter.v")
     found |= summ["spec_failures"] > 0
     core.conclude_s1(ctx, s1, found or bool(ctx.violations))
